@@ -883,8 +883,21 @@ def run(tier: str, budget: Budget, rnd, arg: str) -> StreamResult:
             if c is None or not c.alive:
                 continue
             L = 14 if n == 4 else 10
-            random_walk(c, rnd, L, malformed=(0.12 if arg == "C09" else 0.0),
-                        solver_p=(0.35 if arg == "C13" else 0.0), undo_p=(0.45 if arg == "C08env" else 0.0), budget=gen_budget)
+            kwargs = dict(malformed=(0.12 if arg == "C09" else 0.0), solver_p=(0.35 if arg == "C13" else 0.0),
+                          undo_p=(0.45 if arg == "C08env" else 0.0), budget=gen_budget)
+            if i % 4 == 1:
+                # two live environments of the same player count, different hidden games, operated alternately: state that
+                # leaks between environment objects (class-level caches, shared game objects) shows only here
+                c2 = new_case(n, "minimal", fam_filter=asym)
+                if c2 is not None and c2.alive:
+                    res.count("interleaved-environments")
+                    for _ in range(L // 2):
+                        random_walk(c, rnd, 2, **kwargs)
+                        random_walk(c2, rnd, 2, **kwargs)
+                    drop(c2)
+                    drop(c)
+                    continue
+            random_walk(c, rnd, L, **kwargs)
             drop(c)
     elif arg == "C16":
         i = 0
